@@ -79,8 +79,18 @@ extern "C" {
 
   void GOMP_critical_start() { pthread_mutex_lock(&simomp::criticalMutex); }
   void GOMP_critical_end() { pthread_mutex_unlock(&simomp::criticalMutex); }
-  void GOMP_critical_name_start(void **p) { pthread_mutex_lock((pthread_mutex_t*) (void*) &simomp::criticalMutex + 0); (void) p; }
-  void GOMP_critical_name_end(void **p) { pthread_mutex_unlock(&simomp::criticalMutex); (void) p; }
+  // a named critical region excludes only the regions of the same name: one lock per name (libgomp hands us the
+  // address of a pointer-sized slot per name; one thread runs at a time, so the lazy initialisation cannot race)
+  static pthread_mutex_t *namedCritical(void **p) {
+    if (!*p) {
+      pthread_mutex_t *m = new pthread_mutex_t;
+      pthread_mutex_init(m, 0);
+      *p = m;
+    }
+    return (pthread_mutex_t*) *p;
+  }
+  void GOMP_critical_name_start(void **p) { pthread_mutex_lock(namedCritical(p)); }
+  void GOMP_critical_name_end(void **p) { pthread_mutex_unlock(namedCritical(p)); }
   void GOMP_atomic_start() { pthread_mutex_lock(&simomp::atomicMutex); }
   void GOMP_atomic_end() { pthread_mutex_unlock(&simomp::atomicMutex); }
   void GOMP_barrier() { sim::report("engine", "GOMP_barrier is not expected in translated OKL kernels"); }
